@@ -25,7 +25,10 @@ def _parse_case_uncached(case):
         name, _, ds = w.partition(":")
         defs.append((name, [d for d in ds.split(",") if d]))
     lst = lambda k: [w for w in sec.get(k, "").split() if w != "-"]  # noqa: E731
-    return defs, lst("REQ"), lst("FAIL"), sec.get("REP", "0")
+    rep = sec.get("REP", "0")
+    if lst("VARS"):
+        rep += " ; VARS " + " ".join(lst("VARS"))   # carried through shrinking unchanged
+    return defs, lst("REQ"), lst("FAIL"), rep
 
 
 def _show(defs, req, fail, rep):
